@@ -31,7 +31,7 @@ RULE = (
 ASSUMPTIONS = ["scale[0] == 1 (documented dummy for the time axis)",
                "labels are unique across time (documented precondition of nodes_from_segmentation)"]
 REQUIRED_CLASSES = {t: ["c18:gap_between_nonempty", "c18:exact_tie", "c18:all_empty", "c18:iou",
-                        "part:points", "c18:multiseg_later_to_earlier_hypothesis"] for t in ("quick", "thorough")}
+                        "part:points", "c18:multiseg_later_to_earlier_hypothesis", "c18:frame_without_background"] for t in ("quick", "thorough")}
 
 DY = [0.5, 1.0, 2.0, 0.25, 4.0]
 
@@ -71,6 +71,16 @@ def seg_inputs(draw):
         if pattern == "lead_empty" and t == 0:
             k = 0
         dets = []
+        if k and pattern == "any" and draw(st.integers(0, 5)) == 0:
+            # a confluent frame: 1-3 slabs tile it completely, no background pixel is left
+            cuts = sorted(set(draw(st.lists(st.integers(1, spatial[0] - 1), min_size=0, max_size=2))))
+            lo0 = [0, *cuts]
+            hi0 = [*cuts, spatial[0]]
+            for a, b in zip(lo0, hi0):
+                lab += draw(st.integers(1, 5)) if dtype != "uint8" else 1
+                dets.append({"label": lab, "box": [[a, *[0] * (len(spatial) - 1)], [b, *spatial[1:]]]})
+            frames.append(dets)
+            continue
         for box in _boxes_nonoverlapping(draw, spatial, k):
             lab += draw(st.integers(1, 5)) if dtype != "uint8" else 1
             dets.append({"label": lab, "box": box})
@@ -226,6 +236,8 @@ def probe_seg(inp) -> ProbeResult:
     r = inp["r"] if inp["r"] is not None else _occurring_r(nodes, inp["pick"])
     exact = all(_dyadic(c) for _, p in nodes.values() for c in p) and _dyadic(Fraction(r))
     src = seg.copy()
+    if any((seg[t] != 0).all() for t in range(nt)):
+        res.tags.append("c18:frame_without_background")
     try:
         g = compute_graph_from_seg(seg, r, iou=inp["iou"], scale=None if scale is None else list(scale))
     except Exception as e:  # noqa: BLE001 - every label array in the domain must be handled
